@@ -756,7 +756,7 @@ def inline_private(repo: Repo, fi: FuncInfo, keep=(), depth: int = 3) -> FuncInf
                     if ret_pos or (stmt_pos and is_tail and rets and all(r.value is None or q.is_const(r.value, None) for r in rets)):
                         # `return h(..)` / a call that ends the function: the helper's returns are the caller's returns
                         body, _ret = instantiate(h, mp, caller_locals, keep_returns=True)
-                        if ret_pos and not (body and isinstance(body[-1], (ast.Return, ast.Raise))):
+                        if ret_pos and not _always_leaves(body):
                             body.append(ast.Return(value=ast.Constant(value=None)))
                         new = body or [ast.Pass()]
                         for x in new:
@@ -788,7 +788,9 @@ def inline_private(repo: Repo, fi: FuncInfo, keep=(), depth: int = 3) -> FuncInf
                             ast.fix_missing_locations(x)
                         ast.fix_missing_locations(st2)
                         out.extend(process(new, budget - 1))
-                        out.extend(process([st2], budget - 1))
+                        self_assign = isinstance(st2, ast.Assign) and len(st2.targets) == 1 and isinstance(st2.targets[0], ast.Name) and isinstance(st2.value, ast.Name) and st2.value.id == st2.targets[0].id
+                        if not self_assign:   # `parts = parts` after the helper's own `parts = ...`: nothing left to do
+                            out.extend(process([st2], budget - 1))
                         done = True
             if not done:
                 out.append(st)
@@ -895,3 +897,20 @@ def _as_store(t: ast.AST) -> ast.AST:
         if hasattr(n, "ctx"):
             n.ctx = ast.Store()
     return t
+
+
+def _always_leaves(stmts: List[ast.stmt]) -> bool:
+    """The block cannot complete normally: it ends in return/raise, or in an if/else (or `if <true constant>`) whose
+    branches all do."""
+    if not stmts:
+        return False
+    last = stmts[-1]
+    if isinstance(last, (ast.Return, ast.Raise)):
+        return True
+    if isinstance(last, ast.If):
+        if isinstance(last.test, ast.Constant) and last.test.value and _always_leaves(last.body):
+            return True
+        return bool(last.orelse) and _always_leaves(last.body) and _always_leaves(last.orelse)
+    if isinstance(last, (ast.With, ast.AsyncWith)):
+        return _always_leaves(last.body)
+    return False
